@@ -16,17 +16,20 @@ OPTS = {"path": "futures_crate_path(::futures)", "joiner": "custom_joiner(j)", "
         "lazy": "lazy_branches(true)"}
 
 
-def build_libdrv():
+def build_libdrv(pkg="libdrv"):
+    """libdrv: expansion only (generate_join / Config / JoinInputDefault); parsedrv: + parsed-structure dump (chain enums);
+    namesdrv: + name constructors.  Checks build only the driver whose surface they need."""
     env = dict(os.environ, RUST_BACKTRACE="0")
-    p = subprocess.run(["cargo", "build", "--offline", "--release", "-p", "libdrv"], cwd=os.path.join(C.VERIF, "harness"),
+    p = subprocess.run(["cargo", "build", "--offline", "--release", "-p", pkg], cwd=os.path.join(C.VERIF, "harness"),
                        env=env, stdout=subprocess.PIPE, stderr=subprocess.STDOUT, text=True)
     if p.returncode != 0:
-        # join_impl itself does not compile any more, or its public surface changed
-        raise C.ToolError("cargo build of harness/libdrv failed:\n" + p.stdout[-3000:])
+        # join_impl itself does not compile any more, or the part of its public surface this driver uses changed
+        raise C.ToolError(f"cargo build of harness/{pkg} failed:\n" + p.stdout[-3000:])
 
 
-def libdrv_batch(reqs, wd, tag, procs=16):
+def libdrv_batch(reqs, wd, tag, procs=16, pkg="libdrv"):
     """Runs requests through libdrv in parallel processes; returns responses in order."""
+    exe = os.path.join(C.VERIF, "harness", "target", "release", pkg)
     if not reqs:
         return []
     n = max(1, min(procs, len(reqs) // 2000 + 1))
@@ -39,7 +42,7 @@ def libdrv_batch(reqs, wd, tag, procs=16):
             for r in parts[k]:
                 f.write(json.dumps(r) + "\n")
         with open(inp) as fi, open(outp, "w") as fo:
-            p = subprocess.run([LIBDRV], stdin=fi, stdout=fo, stderr=subprocess.DEVNULL, env=dict(os.environ, RUST_BACKTRACE="0"))
+            p = subprocess.run([exe], stdin=fi, stdout=fo, stderr=subprocess.DEVNULL, env=dict(os.environ, RUST_BACKTRACE="0"))
         res = []
         with open(outp) as f:
             for line in f:
